@@ -1,6 +1,7 @@
 package main
 
 import (
+	"context"
 	"fmt"
 	"math/rand"
 	"net/http"
@@ -76,6 +77,8 @@ type inflightDriver struct {
 	done  map[string]chan reqResult
 	srcOf map[string]string
 	mkReq func(id, src string) *http.Request
+
+	precancel bool // the next request arrives with a cancelled context
 }
 
 func newInflightDriver(h http.Handler, g *gateHandler) *inflightDriver {
@@ -92,6 +95,13 @@ func srcAddr(src string) string {
 // start launches the request and waits until it is inside the protected handler or was answered.
 func (d *inflightDriver) start(id, src string) (admitted bool, res reqResult) {
 	req := httptest.NewRequest(http.MethodGet, "http://front.example.com/", nil)
+	if d.precancel {
+		// the client went away (or a deadline expired) before the request reached the middleware
+		ctx, cancel := context.WithCancel(req.Context())
+		cancel()
+		req = req.WithContext(ctx)
+		d.precancel = false
+	}
 	if d.mkReq != nil {
 		req = d.mkReq(id, src)
 	}
@@ -175,6 +185,7 @@ func runConn(sc Scenario, tr *Trace, seed int64) {
 		switch str(st, "op") {
 		case "start":
 			src := str(st, "src")
+			d.precancel = boolOr(st, "precancel", false)
 			adm, res := d.start(id, src)
 			if adm {
 				state[id] = "run"
